@@ -47,7 +47,7 @@ func emissionCommon(c *Ctx, p *Prog, m *Model, mode Mode, rule string) *ModeReac
 			continue // the hand-over of the finished payload to the destination
 		}
 		if cs, ok := s.Instr.(ssa.CallInstruction); ok && invokeName(cs) == "Write" {
-			if nt := namedOf(cs.Common().Value.Type()); nt != nil && nt.Obj().Name() == "LogWriter" {
+			if nt := namedOf(cs.Common().Value.Type()); nt != nil && nm(nt.Obj()) == "LogWriter" {
 				continue
 			}
 		}
@@ -137,8 +137,8 @@ func fieldOrder(c *Ctx, p *Prog, m *Model, mode Mode, rule string, want []string
 		nPaths++
 		var seq []string
 		for _, cs := range pathCalls(path) {
-			if cal := calleeOf(cs); cal != nil && interesting[cal.Name()] {
-				seq = append(seq, cal.Name())
+			if cal := calleeOf(cs); cal != nil && interesting[nm(cal)] {
+				seq = append(seq, nm(cal))
 			}
 		}
 		if len(seq) <= 2 {
@@ -270,7 +270,7 @@ func c04Escaper(c *Ctx, p *Prog, m *Model, mr *ModeReach) {
 				if cal == nil {
 					continue
 				}
-				switch cal.Name() {
+				switch nm(cal) {
 				case "WriteByte", "pcAppendByte":
 					if v, ok := constInt(cs.Common().Args[len(cs.Common().Args)-1]); ok {
 						ev = append(ev, fmt.Sprintf("%q", rune(v)))
@@ -329,7 +329,7 @@ func c04Escaper(c *Ctx, p *Prog, m *Model, mr *ModeReach) {
 	for _, b := range esc.Blocks {
 		for _, in := range b.Instrs {
 			if ia, ok := in.(*ssa.IndexAddr); ok {
-				if g, ok := ia.X.(*ssa.Global); ok && g.Name() == "safeSet" {
+				if g, ok := ia.X.(*ssa.Global); ok && nm(g) == "safeSet" {
 					uses = true
 				}
 			}
@@ -369,7 +369,7 @@ func c04Escaper(c *Ctx, p *Prog, m *Model, mr *ModeReach) {
 		stores := 0
 		for _, fn := range p.RepoFuncs() {
 			for _, gs := range globalStores(fn) {
-				if gs.G.Name() == "hex" && fn.Name() != "init" {
+				if nm(gs.G) == "hex" && nm(fn) != "init" {
 					stores++
 				}
 			}
@@ -388,7 +388,7 @@ func c04Tokens(c *Ctx, p *Prog, m *Model, mr *ModeReach) {
 			continue
 		}
 		cal := calleeOf(cs)
-		if cal == nil || cal.Name() != "pcAppendStringValue" && cal.Name() != "pcAppendString" {
+		if cal == nil || nm(cal) != "pcAppendStringValue" && nm(cal) != "pcAppendString" {
 			continue
 		}
 		key := fmt.Sprintf("literal:%s:%q", shortName(ce.Fn), ce.Text)
@@ -413,7 +413,7 @@ func c04Tokens(c *Ctx, p *Prog, m *Model, mr *ModeReach) {
 			if cal == nil {
 				return false, false
 			}
-			switch cal.Name() {
+			switch nm(cal) {
 			case "checkerr", "preCheck":
 				return false, false
 			case "WriteByte", "pcAppendByte":
@@ -503,10 +503,10 @@ func c04Brackets(c *Ctx, p *Prog, m *Model, mr *ModeReach) {
 					continue
 				}
 				switch {
-				case cal.Name() == "Begin":
+				case nm(cal) == "Begin":
 					depth++
 					opened = true
-				case cal.Name() == "End":
+				case nm(cal) == "End":
 					depth--
 				case cs == site:
 					n++
@@ -520,7 +520,7 @@ func c04Brackets(c *Ctx, p *Prog, m *Model, mr *ModeReach) {
 				hasDefer := false
 				for _, cs := range calls {
 					if _, ok := cs.(*ssa.Defer); ok {
-						if cal := calleeOf(cs); cal != nil && cal.Name() == "End" {
+						if cal := calleeOf(cs); cal != nil && nm(cal) == "End" {
 							hasDefer = true
 						}
 					}
